@@ -583,11 +583,17 @@ pub const GROUP_EXPRS: &[&str] = &[".g", ".s", "(stringify .n)", "(stringify .id
 pub const SET_OPTS: &[&str] = &[
     "one=1", "name=\"N\"", "lst=[1, 2, 3]", "@inc=(+ . 1)", "@sid=(stringify .id)", "pi=3.14",
     "o={\"a\": 1}", "@mis=.missing",
+    // macros that call a macro their caller binds (8), or one that is pre-set (9) and
+    // shadowed for some values only (10 needs 9)
+    "@each=(map .arr @f)", "@unit=\"m\"", "@show=(concat (stringify .id) @unit)",
 ];
 
 pub const SET_USERS: &[&str] = &[
     "(+ :one .n)", "(concat :name .s)", "(map :lst (+ . :one))", "(map .arr @inc)", "@sid",
     "(get :o \"a\")", "(* :pi 2)", "@mis",
+    "(? .t (define \"f\" (+ . 100) @each) (define \"f\" (stringify .) @each))",
+    "(? (= .g \"a\") (define \"unit\" .g @show) @show)",
+    "(? (> .n 0) (define \"inc\" (- . 1) (map .arr @inc)) (map .arr @inc))",
 ];
 
 #[derive(Clone, Copy, Debug)]
@@ -661,6 +667,15 @@ fn set_users_for(chosen: &[usize]) -> Vec<usize> {
     if has(7) {
         v.push(7);
     }
+    if has(8) {
+        v.push(8);
+    }
+    if has(9) && has(10) {
+        v.push(9);
+    }
+    if has(3) {
+        v.push(10);
+    }
     v
 }
 
@@ -682,6 +697,10 @@ pub fn gen_pipe(rng: &mut Rng, wish: &PipeWish) -> Pipe {
         let n = rng.range(1, 3);
         for _ in 0..n {
             let i = rng.below(SET_OPTS.len());
+            if i == 10 && !chosen_sets.contains(&9) {
+                chosen_sets.push(9);
+                opts.push(vec!["--set".into(), SET_OPTS[9].into()]);
+            }
             if !chosen_sets.contains(&i) {
                 chosen_sets.push(i);
                 opts.push(vec!["--set".into(), SET_OPTS[i].into()]);
